@@ -6,7 +6,7 @@ fn toks(m: &DecodedMap) -> Vec<(u32, u32)> { match m { DecodedMap::Regular(sm) =
 /// C12: reader path == slice path == reference header rule, for every chunking
 pub fn header() -> Report {
     let maxlen = if crate::deep() { 6 } else { 5 };
-    let bound_s = format!("every header over {{) ] ' x CR LF}} of length <= {maxlen} in front of a fixed valid map (and alone), x every chunking with <= 2 cut points in the first header+3 bytes plus 1-byte reads; 38 documents (valid, truncated, trailing data, non-UTF-8 bytes in a string, bad VLQ, non-maps, each also behind a junk header) through slice / reader / both detection predicates / their data URL");
+    let bound_s = format!("every header over {{) ] ' x CR LF}} of length <= {maxlen} in front of a fixed valid map (and alone), x every chunking with <= 2 cut points in the first header+3 bytes plus 1-byte reads; 46 documents (valid, truncated, trailing data, non-UTF-8 bytes in a string, bad VLQ, non-maps, each also behind a junk header; a byte-order mark / whitespace / a comment in front; a Hermes and an index document) through slice / reader / both detection predicates / the typed constructors (slice and reader) / their data URL");
     let bound = bound_s.as_str();
     let body: &[u8] = br#"{"version":3,"sources":["a"],"names":[],"mappings":"AAAA,CAAC"}"#;
     let alpha: &[u8] = b")]'x\r\n";
@@ -43,7 +43,12 @@ pub fn header() -> Report {
         v.push(br#"{"version":3,"sources":["a"],"names":[],"mappings":"AAAA,C!C"}"#.to_vec());
         v.push(br#"[1,2]"#.to_vec()); v.push(br#"{"foo":1}"#.to_vec()); v.push(br#"{"version":3,"sections":[]}"#.to_vec());
         let mut with_hdr = vec![]; for d in &v { let mut h = b")]}'\n".to_vec(); h.extend_from_slice(d); with_hdr.push(h); }
-        v.extend(with_hdr); v
+        v.extend(with_hdr);
+        // a UTF-8 byte-order mark, whitespace, or a comment in front of a valid map / a junk header: whatever one path makes of it, the other must too
+        for pre in [&b"\xef\xbb\xbf"[..], b" ", b"\n", b"\t", b"//x\n", b"\xef\xbb\xbf)]}'\n"] { let mut d = pre.to_vec(); d.extend_from_slice(body); v.push(d); }
+        v.push(br#"{"version":3,"sources":["a"],"names":[],"mappings":"AAAA","x_facebook_sources":[null]}"#.to_vec());
+        v.push(br#"{"version":3,"sections":[{"offset":{"line":0,"column":0},"map":{"version":3,"sources":["a"],"names":[],"mappings":"AAAA"}}]}"#.to_vec());
+        v
     };
     for data in &docs {
         cases += 1;
@@ -55,6 +60,18 @@ pub fn header() -> Report {
             if let (Ok(a), Ok(b)) = (&r, &s) { if toks(a) != toks(b) { return rep(bound, cases, format!("document {:?}: reader and slice decode different maps", String::from_utf8_lossy(data))); } }
             let pr = is_sourcemap(Chunked { data, pos: 0, cuts: cuts.clone(), k: 0 });
             if pr != ps { return rep(bound, cases, format!("document {:?} (chunks {:?}): is_sourcemap (reader) = {pr}, is_sourcemap_slice = {ps}", String::from_utf8_lossy(data), &cuts[..cuts.len().min(3)])); }
+        }
+        // the typed constructors: reader and slice variant of each agree, and succeed exactly when decoding gives that kind
+        {
+            use sourcemap::{DecodedMap, SourceMap, SourceMapHermes, SourceMapIndex};
+            let kind = s.as_ref().ok().map(|m| match m { DecodedMap::Regular(_) => 0, DecodedMap::Index(_) => 1, DecodedMap::Hermes(_) => 2 });
+            let t = match guarded(|| [(SourceMap::from_slice(data).is_ok(), SourceMap::from_reader(&data[..]).is_ok()), (SourceMapIndex::from_slice(data).is_ok(), SourceMapIndex::from_reader(&data[..]).is_ok()),
+                (SourceMapHermes::from_slice(data).is_ok(), SourceMapHermes::from_reader(&data[..]).is_ok())]) { Ok(t) => t, Err(p) => return rep(bound, cases, format!("typed constructors on {:?}: {p}", String::from_utf8_lossy(data))) };
+            for (k, (sl, rd)) in t.iter().enumerate() {
+                let name = ["SourceMap", "SourceMapIndex", "SourceMapHermes"][k];
+                if sl != rd { return rep(bound, cases, format!("document {:?}: {name}::from_slice is_ok = {sl}, {name}::from_reader is_ok = {rd}", String::from_utf8_lossy(data))); }
+                if *sl != (kind == Some(k)) { return rep(bound, cases, format!("document {:?}: {name}::from_slice is_ok = {sl}, but decode_slice gives {}", String::from_utf8_lossy(data), match kind { Some(0) => "a regular map", Some(1) => "an index map", Some(2) => "a Hermes map", _ => "an error" })); }
+            }
         }
         // a base64 data URL decodes to the same outcome as its payload
         for pre in ["data:application/json;base64,", "data:application/json;charset=utf-8;base64,"] {
